@@ -18,6 +18,7 @@ import warnings
 from abc import abstractmethod
 
 import jax
+import jax.tree_util as jtu
 import jax.numpy as jnp
 from jax.experimental import checkify
 from tensorflow_probability.substrates import jax as tfp
@@ -105,6 +106,13 @@ class Distribution(Generic[R], GenerativeFunction[R]):
     ) -> Score:
         pass
 
+    @staticmethod
+    def _like(value: Any, proto: Any) -> Any:
+        """A constrained value takes the dtype of what the distribution samples: the two arms of a
+        flag-dependent `cond` (use the constraint / keep a sampled value) must agree on it, as
+        the unmasked path does by promotion."""
+        return jtu.tree_map(lambda v, p: jnp.asarray(v, dtype=p.dtype), value, proto)
+
     def simulate(
         self,
         key: PRNGKey,
@@ -137,6 +145,8 @@ class Distribution(Generic[R], GenerativeFunction[R]):
                     w = self.estimate_logpdf(key, v, *args)
                     return (w, w, v)
 
+                proto = jax.eval_shape(lambda k: self.random_weighted(k, *args)[1], key)
+                value = Distribution._like(value, proto)
                 score, w, new_v = jax.lax.cond(flag, _importance, _simulate, key, value)
                 tr = DistributionTrace(self, args, new_v, score)
                 return tr, w
@@ -202,9 +212,9 @@ class Distribution(Generic[R], GenerativeFunction[R]):
                             return (old_value, w, fwd)
 
                         flag = masked_value.primal_flag()
-                        new_value: R = masked_value.value
                         old_choices = trace.get_choices()
                         old_value: R = old_choices.get_value()
+                        new_value: R = Distribution._like(masked_value.value, old_value)
 
                         new_value, w, score = FlagOp.cond(
                             flag,
